@@ -314,8 +314,12 @@ def gen_flow(rng, depth, ctx):
         elif r < 0.91:
             nm = rng.choice(["pre", "pre", "listing"])
             out.append(E(nm, rand_attrs(rng, nm), gen_phrasing(rng, depth - 1, ctx) if rng.random() < 0.9 else []))
-        elif r < 0.93:
+        elif r < 0.92:
             out.append(E("hr", rand_attrs(rng, "hr")))
+        elif r < 0.935 and "a" not in ctx and "button" not in ctx:
+            nm = rng.choice(["a", "ins", "del", "map", "x-custom"])
+            out.append(E(nm, rand_attrs(rng, nm, ["href"] if nm == "a" else ["cite"]),
+                         gen_flow(rng, depth - 1, ctx | ({"a"} if nm == "a" else set()))))
         elif r < 0.95 and "a" not in ctx and "button" not in ctx:
             out.append(E("details", rand_attrs(rng, "details"),
                          [E("summary", [], gen_phrasing(rng, depth - 1, ctx))] + gen_flow(rng, depth - 1, ctx)))
@@ -364,7 +368,10 @@ def gen_head(rng):
 
 
 def gen_document(rng, depth=3, doctype=True):
-    body = E("body", rand_attrs(rng, "body") if rng.random() < 0.2 else [], gen_flow(rng, depth, set()))
+    bkids = gen_flow(rng, depth, set())
+    if rng.random() < 0.06:
+        bkids.insert(0, rng.choice([E("link", [("rel", "stylesheet"), ("href", "x")]), E("meta", [("itemprop", "x"), ("content", "y")])]))
+    body = E("body", rand_attrs(rng, "body") if rng.random() < 0.2 else [], bkids)
     html = E("html", rand_attrs(rng, "html") if rng.random() < 0.3 else [], [gen_head(rng), body])
     kids = []
     if doctype:
@@ -392,13 +399,49 @@ def attr_name(k):
     return k
 
 
-def explicit(node):
-    """Every tag explicit, attributes double-quoted, spec escaping, extra LF for pre/textarea/listing."""
+# html5lib's boolean-attribute table on the pinned tree (part of the *description of a listed finding*, not an oracle)
+BOOL_TABLE = {
+    "": ["irrelevant", "itemscope"], "style": ["scoped"], "img": ["ismap"], "audio": ["autoplay", "controls"],
+    "video": ["autoplay", "controls"], "script": ["defer", "async"], "details": ["open"],
+    "datagrid": ["multiple", "disabled"], "command": ["hidden", "disabled", "checked", "default"], "hr": ["noshade"],
+    "menu": ["autosubmit"], "fieldset": ["disabled", "readonly"], "option": ["disabled", "readonly", "selected"],
+    "optgroup": ["disabled", "readonly"], "button": ["disabled", "autofocus"],
+    "input": ["disabled", "readonly", "required", "autofocus", "checked", "ismap"],
+    "select": ["disabled", "readonly", "autofocus", "multiple"], "ol": ["reversed"], "output": ["disabled", "readonly"],
+    "iframe": ["seamless"],
+}
+RAWNAMES = frozenset(["style", "script", "xmp", "iframe", "noembed", "noframes", "noscript"])
+P_PARENT_EXCLUDED = frozenset(["a", "audio", "del", "ins", "map", "noscript", "video"])
+_SPEC_QUOTE = set(" \t\n\x0c\r\"'=<>`")
+_LEGACY_QUOTE = _SPEC_QUOTE | set(chr(c) for c in range(0x21)) | set("/`\xa0\u1680\u180e\u180f\u2000\u2001\u2002\u2003\u2004"
+                                                                     "\u2005\u2006\u2007\u2008\u2009\u200a\u2028\u2029\u202f\u205f\u3000")
+
+QUIRKS = ("bool-min", "no-pre-lf", "attr-ns-dropped", "foreign-rawtext", "escape-rcdata",
+          "p-end-omitted-in-excluded-parent", "body-start-omitted-before-meta-link", "solidus-glued")
+
+
+def _body_omitted(n):
+    return (n.kind == "el" and n.ns == HTML and n.name == "body" and not n.attrs and n.children and
+            n.children[0].kind == "el" and n.children[0].ns == HTML and n.children[0].name in ("meta", "link", "template"))
+
+
+def explicit(node, quirks=frozenset(), opts=None):
+    """Every tag explicit, attributes double-quoted, spec escaping, extra LF for pre/textarea/listing.
+    quirks: names of listed-finding mechanisms to reproduce at the markup level (used only to *classify* a
+    mismatch as a known finding; the unquirked form is what defines the intended tree)."""
+    opts = opts or {}
     out = []
     stack = [(node, 0, None, 0)]
     while stack:
         n, st, parent, idx = stack.pop()
         if st == 1:
+            if ("p-end-omitted-in-excluded-parent" in quirks and n.ns == HTML and n.name == "p" and parent is not None and
+                    parent.kind == "el" and idx == len(parent.children) - 1 and
+                    (parent.ns != HTML or parent.name in P_PARENT_EXCLUDED or "-" in parent.name)):
+                continue
+            if ("body-start-omitted-before-meta-link" in quirks and n.ns == HTML and n.name == "head" and parent is not None and
+                    idx + 1 < len(parent.children) and _body_omitted(parent.children[idx + 1])):
+                continue  # </head> is (legitimately) omitted as well when the body start tag follows directly
             out.append("</%s>" % n.name)
             continue
         if n.kind == "doc":
@@ -409,17 +452,49 @@ def explicit(node):
         elif n.kind == "comment":
             out.append("<!--%s-->" % n.data)
         elif n.kind == "text":
-            raw = parent is not None and parent.kind == "el" and parent.ns == HTML and parent.name in RAW
+            pel = parent is not None and parent.kind == "el"
+            raw = pel and parent.ns == HTML and parent.name in RAW
+            if raw and "escape-rcdata" in quirks:
+                raw = False
+            if pel and parent.ns != HTML and parent.name in RAWNAMES and "foreign-rawtext" in quirks:
+                raw = True
             d = n.data if raw else esc_text(n.data)
-            if (idx == 0 and parent is not None and parent.kind == "el" and parent.ns == HTML and
+            if (idx == 0 and pel and parent.ns == HTML and "no-pre-lf" not in quirks and
                     parent.name in ("pre", "textarea", "listing") and d.startswith("\n")):
                 d = "\n" + d
             out.append(d)
         else:
-            out.append("<%s%s>" % (n.name, "".join(' %s="%s"' % (attr_name(k), esc_attr(v)) for k, v in n.attrs)))
+            if ("body-start-omitted-before-meta-link" in quirks and n.ns == HTML and n.name == "body" and not n.attrs and
+                    n.children and n.children[0].kind == "el" and n.children[0].ns == HTML and
+                    n.children[0].name in ("meta", "link", "template")):
+                pass
+            else:
+                parts = ["<", n.name]
+                last_unquoted = False
+                attrs_it = n.attrs
+                if opts.get("alphabetical_attributes"):
+                    attrs_it = sorted(n.attrs, key=lambda kv: ((kv[0][2], kv[0][1]) if isinstance(kv[0], tuple) else ("", kv[0])))
+                for k, v in attrs_it:
+                    nm = attr_name(k)
+                    if "attr-ns-dropped" in quirks and isinstance(k, tuple):
+                        nm = k[1]
+                    if ("bool-min" in quirks and n.ns is not None and
+                            (nm in BOOL_TABLE.get(n.name, ()) or nm in BOOL_TABLE[""])):
+                        parts.append(" " + nm)
+                        last_unquoted = False
+                        continue
+                    parts.append(' %s="%s"' % (nm, esc_attr(v)))
+                    qs = _SPEC_QUOTE if opts.get("quote_attr_values") == "spec" else _LEGACY_QUOTE
+                    last_unquoted = bool(v) and opts.get("quote_attr_values") != "always" and not (set(v) & qs)
+                    last = (nm, v)
+                if "solidus-glued" in quirks and n.ns == HTML and n.name in VOID and n.attrs and last_unquoted:
+                    # the serializer wrote name=value/> : the solidus becomes part of the unquoted value
+                    parts[-1] = ' %s="%s/"' % (last[0], esc_attr(last[1]))
+                parts.append(">")
+                out.append("".join(parts))
             if n.ns == HTML and n.name in VOID:
                 continue
-            stack.append((n, 1, None, 0))
+            stack.append((n, 1, parent, idx))
             for k in range(len(n.children) - 1, -1, -1):
                 stack.append((n.children[k], 0, n, k))
     return "".join(out)
